@@ -4,7 +4,7 @@
    a sum over unordered annotator pairs of a symmetric function; scaling delta_empty by k multiplies every cost and the cut by k.
    Proofs in theories/Dissim/Proofs.v and theories/Align/InvarProofs.v. *)
 From Coq Require Import List Arith ZArith QArith Bool Permutation.
-From PGA Require Import Dissim.Model Dissim.Proofs Align.Tuples Align.Cover Align.Inst Align.Invar Align.InvarProofs Gamma.GammaK.
+From PGA Require Import Dissim.Model Dissim.Proofs Align.Tuples Align.Cover Align.Inst Align.Invar Align.InvarProofs Align.PermInst Align.PermInstProofs Gamma.GammaK.
 Import ListNotations.
 
 (* all times shifted by a constant / multiplied by a positive constant: the positional dissimilarity does not move *)
@@ -24,6 +24,22 @@ Theorem C09_annotator_permutation n (c : nat -> nat -> Z) (s : list nat) :
   (forall a b, c a b = c b a) -> is_perm n s ->
   pair_sum n (fun a b => c (app_perm s a) (app_perm s b)) = pair_sum n c.
 Proof. exact (pair_sum_perm n c s). Qed.
+
+(* ... at the level of whole instances: the instance whose annotator k is the original's annotator s(k) gives every (correspondingly permuted)
+   tuple the same disorder, maps partitions to partitions and covers to covers with the same total cost, hence has the same minimum *)
+Theorem C09_tuple_disorder_under_annotator_permutation s I t : is_perm (nann I) s -> wf_tuple (sz I) t ->
+  ua_sum (perm_inst s I) (perm_tuple s t) = ua_sum I t.
+Proof. exact (ua_sum_perm s I t). Qed.
+Theorem C09_partitions_under_annotator_permutation s I al : is_perm (nann I) s -> partition (sz I) al ->
+  partition (sz (perm_inst s I)) (map (perm_tuple s) al).
+Proof. exact (partition_perm s I al). Qed.
+Theorem C09_cost_under_annotator_permutation s I al : is_perm (nann I) s -> Forall (wf_tuple (sz I)) al ->
+  al_sum (perm_inst s I) (map (perm_tuple s) al) = al_sum I al.
+Proof. exact (al_sum_perm s I al). Qed.
+Theorem C09_minimum_under_annotator_permutation s I b : is_perm (nann I) s ->
+  (forall al', partition (sz (perm_inst s I)) al' -> (b <= al_sum (perm_inst s I) al')%Z) ->
+  forall al, partition (sz I) al -> (b <= al_sum I al)%Z.
+Proof. exact (lower_bound_transfers s I b). Qed.
 
 (* delta_empty multiplied by k > 0 in all components: linear in every dissimilarity ... *)
 Theorem C09_delta_empty_linear_pos de k u v : (dpos (k * de) u v == k * dpos de u v)%Q.
